@@ -42,6 +42,11 @@ func (o *ObjectRangeRequest) Range(size int64) (*ObjectRange, error) {
 			// If no end is specified, range extends to end of the file.
 			length = size - start
 		} else {
+			// Clip before computing the length: end-start+1 overflows for an
+			// end near math.MaxInt64.
+			if end >= size {
+				end = size - 1
+			}
 			length = end - start + 1
 		}
 
